@@ -39,6 +39,20 @@ theorem cli_table_sound :
 
 /-! ### metadata and fpm.toml mean the same -/
 
+/-- `meta_preprocessor` reads back exactly what the user guide's layout writes, for any number of
+    options and value lines: a block `---` / `key: v0` / `    v1` ... / blank line, with distinct
+    well-formed keywords, values without surrounding blanks and non-blank continuation lines,
+    yields the key -> value-lines table in order, and the rest of the file untouched. -/
+theorem metadata_block_read_back (opts : List (Str × List Str)) (body : List Str)
+    (hg : ∀ o ∈ opts, goodOpt o = true) (hnd : (opts.map (·.1)).Nodup) :
+    metaPre ("---".toList :: (encBlock opts ++ [] :: body)) = (opts, body) := by
+  have := metaLoop_encBlock opts body [] none hg hnd (by simp)
+  simpa [metaPre, isBegin, startsWith] using this
+
+/-- non-vacuity: `src_dir` with two value lines is a well-formed option -/
+example : goodOpt ("src_dir".toList, ["./src".toList, "lib dir".toList]) = true := by decide
+
+
 /-- Per option, generic in the option type and unbounded in the value (any number of lines,
     list items, table entries, file types; any strings): the metadata spelling of a
     well-formed abstract value `a` is converted by `convert_setting` to exactly the settings
